@@ -219,6 +219,12 @@ impl Property for C02 {
             }
         }
     }
+    fn post(&self, cfg: &Cfg, acc: &mut Acc) {
+        if cfg.tier == crate::util::Tier::Thorough || cfg.has_flag("--with-miri") {
+            let j = super::miri::stage(cfg, "C02", acc);
+            acc.notes.push(("miri_aux_stage".to_string(), j));
+        }
+    }
     fn meta(&self, _cfg: &Cfg, _acc: &Acc) -> Meta {
         Meta {
             level: "exploration",
